@@ -134,7 +134,7 @@ func (in *Interp) concretize(t *Term, what string) uint64 {
 	r := in.run
 	for n := 0; ; n++ {
 		if n > in.cfg.MaxConcretize {
-			panic(pathEnd{"bound", fmt.Sprintf("more than %d feasible values for %s", in.cfg.MaxConcretize, what)})
+			panic(pathEnd{"bound", fmt.Sprintf("more than %d feasible values for %s (term %.200s)", in.cfg.MaxConcretize, what, t.String())})
 		}
 		in.countDecision()
 		if d, ok := r.next(); ok {
@@ -163,6 +163,12 @@ func (in *Interp) concretize(t *Term, what string) uint64 {
 		u, _, ok := parseBVValue(vals[t])
 		if !ok {
 			panic(pathEnd{"unknown", "unparsable model value " + vals[t]})
+		}
+		if d := os.Getenv("GOSYM_DUMP"); d != "" && n >= 2 {
+			os.WriteFile(fmt.Sprintf("%s/conc_%d.smt2", d, n), []byte(in.ctx.Dump(nil)+fmt.Sprintf("; want %s\n", t.ref())), 0o644)
+		}
+		if os.Getenv("GOSYM_DEBUG") != "" {
+			fmt.Fprintf(os.Stderr, "concretize %s: value %d (model %q) after %d exclusions\n", what, u, vals[t], n)
 		}
 		r.alt(decision{Val: u, Kind: 'n', Unchecked: true})
 		r.record(decision{Val: u, Kind: 'e'})
